@@ -470,7 +470,10 @@ def cases(rng, tier):
             for (dp, st) in SHAPES:
                 full.append((cls, dp, st, e, es, ss))
     if tier == 'thorough':
-        chosen = full
+        # every spelling in the first four path shapes, a random third of the other shapes
+        first = {(dp, st) for dp, st in SHAPES[:4]}
+        rest = [c for c in full if (c[1], c[2]) not in first]
+        chosen = [c for c in full if (c[1], c[2]) in first] + rng.sample(rest, len(rest) // 3)
     else:
         # always: lower / UPPER / Capitalised x every suffix in the plain shape; plus a random sample
         base = [c for c in full if c[1] == '' and c[4] in (c[3], c[3].upper(), '.' + c[3][1:].capitalize())
